@@ -141,7 +141,13 @@ def run(report):
             elif f.klass == "bounded":
                 report.extend(f.obs)  # partial proofs / unannounced demotions (UNKNOWN) ride along
                 b = f.bounded
-                report.add_bounded(f.qual, f"decorated function at {b['accepted']} seeded random magnitudes x unit prefixes, "
+                how = (f"decorated function at {b['accepted']} points around the arguments of {b['anchored']} call(s) the module's own "
+                       "test makes (each magnitude moved by a random factor in [0.78, 1.28], random unit prefixes; seeded random "
+                       "magnitudes found no evaluable point), ") if b.get("anchored") else (
+                       f"decorated function at {b['accepted']} seeded random magnitudes x unit prefixes, ")
+                if b.get("anchored"):
+                    extra_kinds["anchored at the module's own test arguments"] += 1
+                report.add_bounded(f.qual, how +
                                            f"law residual <= {calc.REL_TOL:g} relative ({b['refused']} points refused by the "
                                            f"function, {b.get('ill_conditioned', 0)} ill-conditioned points skipped; positive "
                                            f"magnitudes only); reason not proved: {f.reason[:300]}",
